@@ -4,7 +4,7 @@
  * stdin, one case per line:
  *   M <hex>            hash_data over the bytes                       -> "h=<dec>"
  *   V <term> <term>    two values a, b                                -> see below
- * term ::= I<dec> | F<16 hex digits: bit pattern> | S<hex bytes> | T<type name> | R<i>|Rn | B<i>|Bn
+ * term ::= I<dec> | F<16 hex digits: bit pattern> | S<hex bytes> | T<type name> | R<16 hex: address held> | B<16 hex>
  *        | P<hex bytes>                      plain struct of that many bytes (no Cmp/Hash/Assign instance)
  *        | A[t,..] | L[t,..] | U[t,..]       Array / List / Tuple
  *        | H{k:v,..} | E{k:v,..}             Table / Tree
@@ -38,9 +38,6 @@ static var blob_type(size_t n) {
   return NULL;
 }
 
-/* pool of objects that Ref / Box values point to */
-#define NPOOL 8
-static var pool[NPOOL];
 
 /* ------------------------------------------------------------------ terms */
 typedef struct Term {
@@ -79,7 +76,7 @@ static Term* parse(char** s) {
       t->bytes[t->n] = 0; break; }
     case 'T': { char* b = *s; while (isalnum((unsigned char)**s)) (*s)++; t->n = (size_t)(*s - b);
       t->bytes = malloc(t->n + 1); memcpy(t->bytes, b, t->n); t->bytes[t->n] = 0; break; }
-    case 'R': case 'B': if (**s == 'n') { t->i = -1; (*s)++; } else t->i = (int64_t)strtoll(*s, s, 10); break;
+    case 'R': case 'B': { uint64_t b = 0; for (int k = 0; k < 16 && isxdigit((unsigned char)**s); k++) { b = (b << 4) | (uint64_t)hexval(**s); (*s)++; } t->bits = b; break; }
     case 'A': case 'L': case 'U': parse_list(s, t, ']', 0); break;
     case 'H': case 'E': parse_list(s, t, '}', 1); break;
     default: t->kind = '?';
@@ -114,8 +111,9 @@ static var build_scalar(Term* t) {
     case 'F': return new_raw(Float, $F(dbl_of_bits(t->bits)));
     case 'S': return new_raw(String, $S((char*)t->bytes));
     case 'T': return type_by_name((char*)t->bytes);
-    case 'R': { var r = alloc_raw(Ref); ref(r, t->i < 0 ? NULL : pool[t->i % NPOOL]); return r; }
-    case 'B': { var r = alloc_raw(Box); ref(r, t->i < 0 ? NULL : pool[t->i % NPOOL]); return r; }
+    /* the address held is given by the case and never dereferenced (no del, no show, collector stopped) */
+    case 'R': { var r = alloc_raw(Ref); ref(r, (var)(uintptr_t)t->bits); return r; }
+    case 'B': { var r = alloc_raw(Box); ref(r, (var)(uintptr_t)t->bits); return r; }
     case 'P': { var ty = blob_type(t->n); if (!ty) return NULL; var r = alloc_raw(ty); memcpy(r, t->bytes, t->n); return r; }
   }
   return NULL;
@@ -252,7 +250,9 @@ static void variants(Term* t, var base, Variants* vs, char* stackbuf) {
     for (int s = 1; s < ns; s++) addv(vs, sn[s], build_seq(t, s), 0);
     /* the same elements in the other sequence kinds */
     const char kinds[] = "ALU";
-    for (int i = 0; i < 3; i++) if (kinds[i] != t->kind) {
+    int homog = 1;
+    for (size_t i = 1; i < t->nel; i++) if (!(term_type(t->el[i]) is term_type(t->el[0]))) homog = 0;
+    for (int i = 0; i < 3; i++) if (kinds[i] != t->kind && (homog || kinds[i] == 'U')) {
       Term o = *t; o.kind = kinds[i];
       addv(vs, kinds[i] == 'A' ? "as-array" : kinds[i] == 'L' ? "as-list" : "as-tuple", build_seq(&o, 0), 0);
     }
@@ -303,7 +303,6 @@ static void check_variants(const char* label, var base, uint64_t hbase, Variants
 static int kind_class(Term* t) { return is_scalar(t) ? 0 : (t->kind == 'H' || t->kind == 'E') ? 2 : 1; }
 
 static void value_case(char* s) {
-  for (int i = 0; i < NPOOL; i++) pool[i] = new_raw(Int, $I(1000 + i));
   Term* ta = parse(&s); while (*s == ' ') s++; Term* tb = parse(&s);
   static char sbuf_a[256] __attribute__((aligned(16))), sbuf_b[256] __attribute__((aligned(16)));
   var a = NULL, b = NULL;
@@ -326,7 +325,7 @@ static void value_case(char* s) {
   for (int i = 0; i < va.n; i++) {
     if (va.oneway[i]) continue;
     int e = eq_s(va.v[i], b);
-    if (e != e0) fail(va.name[i], e < 0 ? "r" : "x");
+    if ((e == 1) != (e0 == 1)) fail(va.name[i], e < 0 ? "r" : "x");   /* raising counts as not eq */
   }
   endfail();
   /* assign(y, a) with y built like b */
